@@ -70,8 +70,8 @@ make_train_sets = Contract(
         "all(data_size[j] >= 0 for j in range(len(data_size)))",
         "implies(subset_max_train is not None, subset_max_train >= 0)",
     ],
-    # known finding (bounded case subset-larger-than-file): the per-file cap can exceed a file's training pool
-    raises={"ValueError": "subset_max_train is not None"},
+    # no exception is allowed: since fix 4df4b43 a file is only sub-sampled when its cap is smaller than its pool,
+    # so Generator.choice(..., replace=False) can never be asked for more rows than the population holds
     ensures=[
         "len(yielded) == len(test_idx[0])",
         "all(len(yielded[f]) == len(data_size) for f in range(len(yielded)))",
@@ -130,6 +130,9 @@ CONTRACTS = [make_train_sets, fit_model]
 BOUNDED = {"module": "harness.c02"}
 
 MUTANTS = [
+    {"name": "cap-compared-with-total-size", "target": "mokapot.brew.make_train_sets",
+     "find": "if current_subset_max_train < len(train_idx[i]):",
+     "replace": "if current_subset_max_train < train_idx_size:"},
     {"name": "test-fold-not-removed", "target": "mokapot.brew.make_train_sets",
      "find": "            train_idx[file_idx] += list(set(range(k, ds)) - set(idx))",
      "replace": "            train_idx[file_idx] += list(set(range(k, ds)))"},
